@@ -245,6 +245,10 @@ theorem akw_unwrap_ok_is_wrap (o : Oracle) (ks : Nat) (can : Bool) (key data cek
 
 end AKW
 
+theorem keyLen_aes' (k : Bytes) (n : Nat) (hn : n = 16 ∨ n = 24 ∨ n = 32) (h : k.length = n) :
+    aesKeyOk k = true := by
+  rcases hn with h' | h' | h' <;> subst h' <;> simp [aesKeyOk, h]
+
 /-! ## Concat KDF (SP 800-56A §5.8.1 in the RFC 7518 §4.6.2 profile) and ECDH-ES -/
 section KDF
 open Spec.ConcatKDF Model.KW.ECDHES
@@ -289,6 +293,59 @@ theorem ecdhes_unwrap_eq_spec (o : Oracle) (name enc crv : String) (size : Nat)
       PO.run_pure]
   · have : (size == 0) = false := by simpa using hs
     simp only [this, Bool.false_eq_true, if_false, hs]
+
+theorem spec_deriveKey_length (H : Bytes → Bytes) (hH : ∀ x, (H x).length = 32) (z alg apu apv : Bytes) (n : Nat) :
+    (Spec.ConcatKDF.deriveKey H z alg apu apv n).length = n := by
+  unfold Spec.ConcatKDF.deriveKey kdf
+  rw [List.length_take, stream_length H hH]
+  unfold reps; omega
+
+/-- **ecdhes_derive_eq_spec** (producer path).  ECDH-ES DeriveKey derives with the SAME OtherInfo as
+    UnwrapKey — AlgorithmID, then apu as PartyUInfo, then apv as PartyVInfo, whoever computes — and
+    returns, in direct mode, (Concat KDF output of cekSize(enc) octets, empty encrypted key); in key
+    wrapping mode (alg name, size 16/24/32) (cek, RFC 3394 wrap of the cek under the Concat KDF
+    output of `size` octets).  For every apu / apv (absent = empty, equal, different, one-sided). -/
+theorem ecdhes_derive_eq_spec (o : Oracle) (name enc crv : String) (size : Nat)
+    (priv pub apu apv cek z : Bytes)
+    (hz : (o ⟨"ecdh", [.str crv, .bytes priv, .bytes pub]⟩).asBytes? = some z)
+    (hmode : (name = "" ∧ size = 0) ∨ (name ≠ "" ∧ (size = 16 ∨ size = 24 ∨ size = 32)))
+    (h8 : cek.length % 8 = 0) :
+    PO.run o (Model.KW.ECDHES.produceKey name size true enc crv priv pub apu apv cek) =
+      (if name = "" then
+        .ok (Spec.ConcatKDF.deriveKey (hashFn o "sha256") z (Bytes.ofString enc) apu apv (cekSize enc), [])
+       else
+        .ok (cek, Spec.RFC3394.wrap
+          (encFn o (Spec.ConcatKDF.deriveKey (hashFn o "sha256") z (Bytes.ofString name) apu apv size)) cek)) := by
+  unfold Model.KW.ECDHES.produceKey
+  simp only [Bool.not_true, Bool.false_eq_true, if_false, PO.run_bind, deriveZ, PO.run_query, hz,
+    PO.run_ofOption_some, concatkdf_eq_spec]
+  rcases hmode with ⟨hn, hs⟩ | ⟨hn, hs⟩
+  · subst hn; subst hs
+    simp
+  · have hne : (name != "") = true := by simpa using hn
+    have hnq : (name == "") = false := by simpa using hn
+    have hs0 : (size == 0) = false := by rcases hs with h | h | h <;> subst h <;> rfl
+    simp only [hne, hnq, hs0, if_true, Bool.false_eq_true, if_false, hn]
+    have hl := spec_deriveKey_length (hashFn o "sha256") (fun x => fit_length _ _) z (Bytes.ofString name) apu apv size
+    have hk : Model.KW.AKW.keyAccepted size
+        (Spec.ConcatKDF.deriveKey (hashFn o "sha256") z (Bytes.ofString name) apu apv size) = true := by
+      rcases hs with h | h | h <;> subst h <;> simp [Model.KW.AKW.keyAccepted, hl]
+    have hk' := keyLen_aes' _ size hs hl
+    rw [PO.run_bind, akw_wrap_eq_spec o size _ cek hk hk' h8]
+    rfl
+
+/-- the producer and the recipient derive the same key from the same (Z, apu, apv): UnwrapKey of the
+    producer's encrypted key is the RFC 3394 unwrapping under the very key DeriveKey wrapped with
+    (and in direct mode both return the same derived key) -/
+theorem ecdhes_unwrap_derive_same_key (o : Oracle) (enc crv crv' : String)
+    (priv pub priv' pub' apu apv z : Bytes)
+    (hz : (o ⟨"ecdh", [.str crv, .bytes priv, .bytes pub]⟩).asBytes? = some z)
+    (hz' : (o ⟨"ecdh", [.str crv', .bytes priv', .bytes pub']⟩).asBytes? = some z) :
+    (PO.run o (Model.KW.ECDHES.produceKey "" 0 true enc crv priv pub apu apv [])).toOption.map Prod.fst =
+      (PO.run o (Model.KW.ECDHES.unwrapKey "" 0 true enc crv' priv' pub' apu apv [])).toOption := by
+  rw [ecdhes_derive_eq_spec o "" enc crv 0 priv pub apu apv [] z hz (Or.inl ⟨rfl, rfl⟩) rfl,
+    ecdhes_unwrap_eq_spec o "" enc crv' 0 priv' pub' apu apv [] z hz']
+  simp [Outcome.toOption]
 
 end KDF
 
